@@ -753,4 +753,97 @@ theorem orderable_not_resolvable (s : Nat) (h : orderableSyn.contains s = true) 
   rcases h with rfl | rfl | rfl | rfl <;> decide
 
 
+/-! ### the greedy substring matcher decides the declarative specification -/
+
+theorem afterFirst_some (p : List Nat) : ∀ (x r : List Nat), afterFirst p x = some r → ∃ g, x = g ++ p ++ r
+  | [], r, h => by
+    unfold afterFirst at h
+    split at h
+    · rename_i hp
+      cases h
+      cases p with
+      | nil => exact ⟨[], rfl⟩
+      | cons a as => simp at hp
+    · cases h
+  | y :: ys, r, h => by
+    unfold afterFirst at h
+    split at h
+    · rename_i hp
+      cases h
+      obtain ⟨t, ht⟩ := List.isPrefixOf_iff_prefix.mp hp
+      refine ⟨[], ?_⟩
+      rw [← ht]
+      simp
+    · obtain ⟨g, hg⟩ := afterFirst_some p ys r h
+      exact ⟨y :: g, by rw [hg]; simp⟩
+
+theorem afterFirst_of_occ (p : List Nat) : ∀ (x g r' : List Nat), x = g ++ p ++ r' →
+    ∃ r0 h, afterFirst p x = some r0 ∧ r0 = h ++ r'
+  | [], g, r', hx => by
+    have : g = [] ∧ p = [] ∧ r' = [] := by
+      have h2 := hx.symm
+      simpa [List.append_eq_nil_iff] using h2
+    obtain ⟨rfl, rfl, rfl⟩ := this
+    exact ⟨[], [], by simp [afterFirst], rfl⟩
+  | y :: ys, g, r', hx => by
+    unfold afterFirst
+    by_cases hp : p.isPrefixOf (y :: ys) = true
+    · simp only [hp, if_true]
+      refine ⟨_, (g ++ p).drop p.length, rfl, ?_⟩
+      rw [hx, List.drop_append_of_le_length (by simp)]
+    · simp only [hp, Bool.false_eq_true, if_false]
+      cases g with
+      | nil =>
+        exfalso
+        apply hp
+        rw [hx]
+        exact List.isPrefixOf_iff_prefix.mpr ⟨r', by simp⟩
+      | cons y' g' =>
+        simp only [List.cons_append, List.cons.injEq] at hx
+        exact afterFirst_of_occ p ys g' r' hx.2
+
+theorem anySpec_mono : ∀ (as : List (List Nat)) (fin : Option (List Nat)) (h r' : List Nat),
+    anySpec as fin r' → anySpec as fin (h ++ r')
+  | [], none, _, _, _ => trivial
+  | [], some f, h, r', ⟨g, hg⟩ => ⟨h ++ g, by rw [hg]; simp⟩
+  | a :: as, fin, h, r', ⟨g, r'', hg, hs⟩ => ⟨h ++ g, r'', by rw [hg]; simp, hs⟩
+
+/-- the tail of `subMatchStr`: the `any` components, then the final one -/
+def matchAnyFin (any : List (List Nat)) (fin : Option (List Nat)) (r : List Nat) : Bool :=
+  match matchAny any r with
+  | none => false
+  | some r' =>
+    match fin with
+    | none => true
+    | some f => f.isSuffixOf r'
+
+theorem matchAnyFin_iff : ∀ (as : List (List Nat)) (fin : Option (List Nat)) (r : List Nat),
+    matchAnyFin as fin r = true ↔ anySpec as fin r
+  | [], none, r => by simp [matchAnyFin, matchAny, anySpec]
+  | [], some f, r => by
+    simp only [matchAnyFin, matchAny, anySpec]
+    rw [List.isSuffixOf_iff_suffix]
+    constructor
+    · rintro ⟨t, ht⟩; exact ⟨t, ht.symm⟩
+    · rintro ⟨g, hg⟩; exact ⟨g, hg.symm⟩
+  | a :: as, fin, r => by
+    have ih := matchAnyFin_iff as fin
+    constructor
+    · intro h
+      unfold matchAnyFin at h
+      simp only [matchAny] at h
+      cases ha : afterFirst a r with
+      | none => simp [ha] at h
+      | some r0 =>
+        simp only [ha] at h
+        obtain ⟨g, hg⟩ := afterFirst_some a r r0 ha
+        exact ⟨g, r0, hg, (ih r0).mp (by unfold matchAnyFin; exact h)⟩
+    · rintro ⟨g, r', hg, hs⟩
+      obtain ⟨r0, h, ha, hr0⟩ := afterFirst_of_occ a r g r' hg
+      have := (ih r0).mpr (by rw [hr0]; exact anySpec_mono as fin h r' hs)
+      unfold matchAnyFin at this ⊢
+      simp only [matchAny, ha]
+      exact this
+
+
 end Kanidm.ProtoFilter
